@@ -2,6 +2,9 @@
 
 Differential oracle, exact (NaN-aware) equality: halos[col] from fields=[col] must equal halos[col] from
 fields=[col,*others] in any order, from 'all', from the default set, with or without subsamples; no load may raise.
+History clause ("depend only on the catalog files and the unit option"): for one column of each unit family the load made
+in the long-lived worker, right after a twin catalog with another BoxSize / VelZSpace_to_kms was loaded, must be bit-identical
+to the same load made by a fresh interpreter (python -m vt.fresh_load) that has never seen another catalog.
 """
 import os
 import warnings
@@ -9,6 +12,7 @@ import warnings
 import numpy as np
 from hypothesis import strategies as st
 
+from vt import env
 from vt.core import Violation
 from vt.gen import catalog as G
 
@@ -23,10 +27,11 @@ RULE = (
 ASSUMPTIONS = [
     'npstart/npout{A,B} are compared only between loads with the same subsample selection (they are defined to be rewritten when subsamples load)',
     'blosc codec replaced by the zlib stand-in for blsc fixtures',
+    'the fresh-interpreter differential is run for 16 (quick) / 48 (thorough) enumerated cases only (about 3 s of imports each); a failure of the fresh interpreter to load what the worker could load is reported as a violation',
 ]
 EXHAUSTIVE_NOTE = {
-    'quick': 'every compressed-ratio column with the column it is relative to listed before and after it; every valid column name requested alone vs through fields="all" (and the default set where it contains it): box-cleaned (incl. main-progenitor columns), box-uncleaned and light-cone layouts, one fixed catalog each',
-    'thorough': 'same as quick on three fixed catalogs per layout, plus every ordered pair (target, last-listed column) for derived targets',
+    'quick': 'every compressed-ratio column with the column it is relative to listed before and after it; every valid column name requested alone vs through fields="all" (and the default set where it contains it): box-cleaned (incl. main-progenitor columns), box-uncleaned and light-cone layouts, one fixed catalog each; every ordered pair of cleaning columns involving a main-progenitor column (both list positions); 16 fresh-interpreter differentials (one column per unit family) after a twin catalog with a different header was loaded',
+    'thorough': 'same as quick on three fixed catalogs per layout (48 fresh-interpreter differentials), plus every ordered pair (target, last-listed column) for derived targets',
 }
 
 _names = None
@@ -93,10 +98,18 @@ def _base_of(col):
     return None
 
 
+def extra_evidence():
+    return dict(_hist)
+
+
 def config(tier):
     if tier == 'quick':
         return dict(shards=16, examples=10, numba_threads=1, soft_s=170, shrink_calls=30)
     return dict(shards=16, examples=130, numba_threads=1, soft_s=1300, shrink_calls=120)
+
+
+_FRESH = ['x_com', 'v_com', 'r50_com', 'sigmavMaj_com', 'SO_radius', 'r100_L2com', 'sigmav3d_com', 'pos_interp', 'vcirc_max_com', 'rvcirc_max_L2com', 'sigmar_com', 'sigmavMid_com', 'x_L2com', 'meanSpeed_com', 'N', 'vel_avg']
+_hist = {'fresh_process_comparisons': 0}
 
 
 def _fixed_cat(layout, k):
@@ -140,6 +153,26 @@ def exhaustive(tier, shard, nshards):
                 if k % nshards != shard:
                     continue
                 yield {'cat': _fixed_cat(layout, 1), 'cleaned': cleaned, 'convert_units': True, 'target': col, 'others': [b], 'pos': pos, 'modes': [], 'sub': None}
+    # cleaning / main-progenitor columns (per-epoch (N, nprev) and single-epoch ones) in every order of every pair
+    cl = [c for c in names()['clean']]
+    for a in cl:
+        for b in cl:
+            if a == b or not ('mainprog' in a or 'mainprog' in b):
+                continue
+            for pos in (0, 1):
+                k += 1
+                if k % nshards != shard:
+                    continue
+                yield {'cat': _fixed_cat('box', 1), 'cleaned': True, 'convert_units': True, 'target': a, 'others': [b], 'pos': pos, 'modes': [], 'sub': None}
+    # process-history independence: one column of each unit family, compared with a load in a fresh interpreter (one case per shard in
+    # the quick tier: 16 consecutive k)
+    for c in range(1 if tier == 'quick' else 3):
+        for col in _FRESH:
+            layout = 'lc' if col in ('pos_interp', 'vel_avg') else 'box'
+            k += 1
+            if k % nshards != shard:
+                continue
+            yield {'cat': _fixed_cat(layout, c), 'cleaned': layout == 'lc' or col == 'N', 'convert_units': col != 'meanSpeed_com', 'target': col, 'others': [], 'pos': 0, 'modes': [], 'sub': None, 'fresh': True}
     if tier == 'thorough':
         for layout, cleaned in (('box', True), ('box', False), ('lc', True)):
             cols = valid_columns(layout, cleaned)
@@ -167,13 +200,14 @@ def _desc(draw, tier):
     others = draw(st.lists(st.sampled_from(cols), min_size=0, max_size=6, unique=True))
     others = [c for c in others if c != target]
     # biased tails: something of a different dtype/shape listed last; a dependency of the target
-    tail = draw(st.sampled_from(['none', 'uint', 'vec', 'dep', 'clean', 'base']))
+    tail = draw(st.sampled_from(['none', 'uint', 'vec', 'dep', 'clean', 'base', 'prog']))
     pool = {
         'uint': [c for c in cols if family(c) in ('N', 'plain') and c in ('N', 'id', 'L0_N', 'ntaggedA', 'N_interp', 'index_halo', 'origin', 'L2_N')],
         'vec': [c for c in cols if c.startswith('x_') or c.startswith('v_') or c.startswith('SO') or 'eigenvecs' in c or c.startswith('sigmar') or c in ('pos_avg',)],
         'dep': [c for c in cols if c.startswith('sigmavM') or c.startswith('sigmav3d') or c.startswith('r100') or 'eigenvecs' in c or c in ('pos_avg', 'vel_avg', 'pos_interp', 'vel_interp')],
         'clean': [c for c in cols if c in names()['clean']],
         'none': [],
+        'prog': [c for c in cols if 'mainprog' in c],
         'base': [_base_of(target)] if _base_of(target) in cols else [],
     }[tail]
     pool = [c for c in pool if c != target]
@@ -203,7 +237,7 @@ def _dt(col):
 
 
 def nontrivial(d):
-    if family(d['target']) in ('sigmavMid', 'eigvec', 'interp', 'ratio'):
+    if d.get('fresh') or family(d['target']) in ('sigmavMid', 'eigvec', 'interp', 'ratio'):
         return True
     if d['others']:
         seq = list(d['others'])
@@ -218,6 +252,8 @@ def classes(d):
         c.append('mode=' + m)
     if not d['convert_units']:
         c.append('convert_units=False')
+    if d.get('fresh'):
+        c.append('fresh-process-differential')
     return c
 
 
@@ -267,6 +303,34 @@ def _load(cat, d, CompaSOHaloCatalog, fields, sub):
 
 class _Consumed(Exception):
     pass
+
+
+def _check_history(cat, d, CompaSOHaloCatalog, target, tname, fam, get):
+    """'depend only on the catalog files and the unit option': not on what this process loaded before. A twin catalog (same
+    layout, different BoxSize / VelZSpace_to_kms / data) is loaded first, then the target from `cat`; the result must be bit-identical
+    to what a fresh interpreter, which has never seen another catalog, loads from the same files."""
+    import copy
+    import subprocess
+
+    tdesc = copy.deepcopy(d['cat'])
+    tdesc['box'] = float(tdesc['box']) * 2 + 1.5
+    tdesc['velz'] = float(tdesc['velz']) * 3 + 0.25
+    tdesc['seed'] = int(tdesc['seed']) + 1
+    twin = G.build(tdesc, G.scratch_root('c02twin'))
+    try:
+        _load(twin, d, CompaSOHaloCatalog, [target], None)
+    finally:
+        G.destroy(twin)
+    after = get(_load(cat, d, CompaSOHaloCatalog, [target], None), 'alone, after another catalog was loaded')
+    out = os.path.join(cat.root, 'fresh.npy')
+    r = subprocess.run([env.PYTHON, '-m', 'vt.fresh_load', cat.groupdir, str(int(bool(d['cleaned']))), str(int(bool(d['convert_units']))), target, tname, out],
+                       env=env.worker_env(numba_threads=1), cwd=env.VERIF, capture_output=True, text=True, timeout=600)
+    if r.returncode != 0 or not os.path.exists(out):
+        raise Violation('fresh-process-load-failed:' + fam, 'a fresh interpreter could not load %r alone although this process could: %s' % (target, (r.stderr or '')[-400:]))
+    fresh = np.load(out)
+    _hist['fresh_process_comparisons'] += 1
+    if not _same(after, fresh):
+        raise Violation('value-depends-on-process-history:' + fam, 'column %r loaded alone in a process that had loaded a catalog with another header before differs from the same load in a fresh interpreter (dtype %s vs %s, shape %s vs %s)' % (target, after.dtype, fresh.dtype, after.shape, fresh.shape))
 
 
 def _check(cat, d, CompaSOHaloCatalog):
@@ -330,6 +394,8 @@ def _check_inner(cat, d, CompaSOHaloCatalog):
             c = _load(cat, d, CompaSOHaloCatalog, 'DEFAULT_FIELDS', None)
             if tname in c.halos.colnames:
                 compare(c, 'through the default field set')
+    if d.get('fresh'):
+        _check_history(cat, d, CompaSOHaloCatalog, target, tname, fam, get)
     if d['sub']:
         # with subsamples: alone, and with the others
         c1 = _load(cat, d, CompaSOHaloCatalog, [target], d['sub'])
